@@ -53,7 +53,14 @@ def getitem(I, obj, idx):
         return seq_getitem(I, obj, idx)
     if isinstance(obj, SArray):
         return arr_getitem(I, obj, idx)
+    from .arrays2d import S2D, getitem2d
+    if isinstance(obj, S2D):
+        return getitem2d(I, obj, idx)
     if isinstance(obj, SCompressed):
+        if isinstance(idx, SCompressed) and idx.kind == "bool" and A.same_mask(I, idx.maskfn, obj.maskfn):
+            # selection inside an already selected part: conjunction of the masks
+            f, m0, g = obj.fn, obj.maskfn, idx.fn
+            return SCompressed(f, lambda i: z3.And(m0(i), V.bterm(g(i))), obj.length, obj.kind, src=obj.src)
         raise Unsupported("indexing a compressed array")
     if isinstance(obj, sx.LibRef) and obj.name in ("typing.List", "typing.Literal"):
         return Opaque("type")
@@ -79,6 +86,9 @@ def setitem(I, obj, idx, value):
         return
     if isinstance(obj, SArray):
         return arr_setitem(I, obj, idx, value)
+    from .arrays2d import S2D, setitem2d
+    if isinstance(obj, S2D):
+        return setitem2d(I, obj, idx, value)
     if isinstance(obj, SSeq):
         if isinstance(idx, slice) and idx.start is None and idx.stop is None and idx.step is None \
                 and isinstance(value, SSeq):
@@ -1249,6 +1259,8 @@ def install(I):
     install_numpy_scalars(I)
     install_numpy2(I)
     install_numpy3(I)
+    from . import arrays2d
+    arrays2d.install(I)
 
 
 # ================================================================== symbolic-length lists (z3 sequences)
